@@ -402,7 +402,8 @@ func runC10(c *fw.Ctx) {
 // c10Placement checks that every native cell of the standalone is held by exactly one partition
 // with the same values and that redundant followers agree. Returns how many partitions hold data.
 func c10Placement(c *fw.Ctx, e *c10Env, desc interface{}) int {
-	// A disagreement is only reported when it is still there after three more looks 3s apart: a follower may have
+	// A disagreement is only reported when it is still there after six more looks 3s apart (a table whose WHERE no
+	// barrier point passes has no other evidence of convergence): a follower may have
 	// been handed everything (barrier visible) and still be busy applying on a loaded machine, while a point that
 	// is really lost or misplaced stays that way.
 	for attempt := 0; ; attempt++ {
@@ -421,8 +422,8 @@ func c10Placement(c *fw.Ctx, e *c10Env, desc interface{}) int {
 			}
 			return n
 		}
-		if attempt >= 3 {
-			c.ViolateData(fsig, fdata, fformat+" (unchanged over four looks, 9s)", fargs...)
+		if attempt >= 6 {
+			c.ViolateData(fsig, fdata, fformat+" (still so after seven looks over 18s)", fargs...)
 			return n
 		}
 		time.Sleep(3 * time.Second)
